@@ -206,6 +206,8 @@ def ecAt : Nat → Ed → Bytes → Bytes → Bytes → R Int
 def ecGlob : Nat → Ed → Bytes → Bytes → Bytes → R Int
   | 0, _, _, _, _ => none
   | f + 1, ed, loc, cmd, arg =>
+    -- the marks of a line are the bits of a `char`: an eighth level is refused
+    if ed.xgdep ≥ 7 then some (1, ed.show (strOf "global commands nested too deep")) else
     let loc := if loc.isEmpty && ed.xgdep == 0 then [37] else loc
     match exRegion ed loc with
     | none => none
